@@ -62,6 +62,49 @@ fn encode_case(ctx: &mut Ctx) {
             }
         }
     }
+    // the same message produced by the crate's constructor: Message::new computes the length,
+    // the verbose flag and the argument count itself, and what it builds must serialise to the
+    // layout's bytes as well
+    if let Some(x) = &m.extended_header {
+        let mut want_msg = m.clone();
+        if let (Some(wx), PayloadContent::NonVerbose(..) | PayloadContent::ControlMsg(..)) = (want_msg.extended_header.as_mut(), &m.payload) {
+            wx.argument_count = 0; // NOAR carries no information for these payload kinds; the constructor writes 0
+        }
+        let want = ref_encode(&want_msg);
+        let conf = MessageConfig {
+            version: m.header.version,
+            counter: m.header.message_counter,
+            endianness: m.header.endianness,
+            ecu_id: m.header.ecu_id.clone(),
+            session_id: m.header.session_id,
+            timestamp: m.header.timestamp,
+            payload: m.payload.clone(),
+            extended_header_info: Some(ExtendedHeaderConfig {
+                message_type: x.message_type.clone(),
+                app_id: x.application_id.clone(),
+                context_id: x.context_id.clone(),
+            }),
+        };
+        let sh = m.storage_header.clone();
+        ctx.eval();
+        match guarded(move || Message::new(conf, sh).as_bytes()) {
+            Err(p) => ctx.panic_violation("encode.no_panic", &p, || J::obj().set("message", show_msg(&m)).set("via", "Message::new")),
+            Ok(b) if b == want.bytes => ctx.obs("encode.constructed_message_ok"),
+            Ok(b) => {
+                let at = first_diff(&b, &want.bytes);
+                let label = want.label_at(at.min(want.bytes.len().saturating_sub(1)));
+                ctx.violation("encode.constructed_message_bytes", &format!("{}:{}:{}", pk, if be { "be" } else { "le" }, label), || {
+                    J::obj()
+                        .set("message", show_msg(&m))
+                        .set("via", "Message::new(MessageConfig{..}).as_bytes()")
+                        .set("crate_hex", hex_trunc(&b, 200))
+                        .set("reference_hex", hex_trunc(&want.bytes, 200))
+                        .set("first_difference_at", at)
+                        .set("field", label)
+                })
+            }
+        }
+    }
     // parts
     if let Some(sh) = &m.storage_header {
         ctx.eval();
@@ -274,7 +317,7 @@ impl Monitor for M {
 
     fn describe(&self, ctx: &Ctx) -> J {
         super::describe(
-            "1/4 encode cases: well-formed messages (random + systematic layer) serialised by the crate and compared byte-for-byte with the reference encoder, whole message and per part (storage/standard/extended header, each of the first 6 arguments and their type-info words in both byte orders). 3/4 decode cases: input classes canonical (reference-encoded, never via the crate's writer) 20 %, dialect (reserved/struct type-info bits, TYLE on bool/string/raw, SCOD on any kind, ids with embedded NUL / no padding, missing or early terminators, FIXP on non-integer kinds, any version) 15 %, structure-aware mutants (16 operators on length fields, counts, type-info words, prefixes, terminators, UTF-8, byte order flag, argument dup/drop, truncation, junk, tails, pattern planted) 35 %, truncations 10 %, 0xFFFF length-prefix attacks with 66 KiB tails 5 %, arbitrary bytes 5 %, header-shaped random 10 %; 1/4 also parsed in the other storage mode, storage inputs 1/4 also with junk in front, small canonical messages 1/8 also at every cut. distinct = (class, storage mode, HTYP, MSIN, first payload bytes, reference verdict, crate verdict); non-trivial = reference verdict is a message or the input is a mutant/dialect variant of a valid message",
+            "1/4 encode cases: well-formed messages (random + systematic layer) serialised by the crate and compared byte-for-byte with the reference encoder, whole message, the same message built through Message::new(MessageConfig) (the constructor computes length, verbose flag and argument count itself), and per part (storage/standard/extended header, each of the first 6 arguments and their type-info words in both byte orders). 3/4 decode cases: input classes canonical (reference-encoded, never via the crate's writer) 20 %, dialect (reserved/struct type-info bits, TYLE on bool/string/raw, SCOD on any kind, ids with embedded NUL / no padding, missing or early terminators, FIXP on non-integer kinds, any version) 15 %, structure-aware mutants (16 operators on length fields, counts, type-info words, prefixes, terminators, UTF-8, byte order flag, argument dup/drop, truncation, junk, tails, pattern planted) 35 %, truncations 10 %, 0xFFFF length-prefix attacks with 66 KiB tails 5 %, arbitrary bytes 5 %, header-shaped random 10 %; 1/4 also parsed in the other storage mode, storage inputs 1/4 also with junk in front, small canonical messages 1/8 also at every cut. distinct = (class, storage mode, HTYP, MSIN, first payload bytes, reference verdict, crate verdict); non-trivial = reference verdict is a message or the input is a mutant/dialect variant of a valid message",
             &[
                 "rule 4: where the buffer is short AND the declared length is visibly smaller than the headers, both 'incomplete' and 'reject' are accepted",
                 "type-info comparison modulo the string-coding bits of non-string kinds; all other fields exact, floats by bit pattern",
@@ -282,7 +325,7 @@ impl Monitor for M {
                 "bytes left over inside the declared payload after the NOAR-th argument are ignored",
                 "dialect accepted by the reference: any TYLE on bool/string/raw, bits 14 and 18-31 set, FIXP on non-integer kinds ignored, ids with embedded/missing NUL, any version",
             ],
-            &[("encode.message_ok", super::scaled(ctx, 50000)), ("decode.agree", super::scaled(ctx, 200000)), ("decode.mutant.message", super::scaled(ctx, 5000)), ("decode.mutant.reject", super::scaled(ctx, 5000)), ("decode.dialect.message", super::scaled(ctx, 5000)), ("decode.truncated.incomplete", super::scaled(ctx, 5000))],
+            &[("encode.message_ok", super::scaled(ctx, 50000)), ("encode.constructed_message_ok", super::scaled(ctx, 20000)), ("decode.agree", super::scaled(ctx, 200000)), ("decode.mutant.message", super::scaled(ctx, 5000)), ("decode.mutant.reject", super::scaled(ctx, 5000)), ("decode.dialect.message", super::scaled(ctx, 5000)), ("decode.truncated.incomplete", super::scaled(ctx, 5000))],
         )
     }
 }
